@@ -835,39 +835,44 @@ where
         let msg = "Unable to grow memory";
         let state = self.state_mut();
 
-        let current_segment = self.current_segment(msg);
+        // the chunk must be grown by the allocator of the segment it lives in, which is not
+        // necessarily the current segment
+        let old_segment_id = old_pointer.offset.segment_id();
+        let old_segment = match state
+            .shared_memory_map
+            .get(SlotMapKey::new(old_segment_id.value() as usize))
+        {
+            Some(entry) => entry,
+            None => {
+                fatal_panic!(from self,
+                    "This should never happen! {msg} since the shared memory segment of {:?} is not available!",
+                    old_pointer.offset);
+            }
+        };
 
         match unsafe {
-            current_segment
+            old_segment
                 .shm
                 .grow(old_pointer, old_layout, new_layout, placement)
         } {
             Ok(mut ptr) => {
-                ptr.offset
-                    .set_segment_id(SegmentId::new(state.current_idx.value() as u8));
+                ptr.offset.set_segment_id(old_segment_id);
                 return Ok(ptr);
             }
-            Err(AllocationGrowError::OutOfMemory) => {
-                self.handle_reallocation(state, new_layout, &current_segment.shm)?
-            }
+            Err(AllocationGrowError::OutOfMemory) => (),
             Err(e) => {
                 fail!(from self, with e,
                         "{msg} due to {e:?}.");
             }
         }
 
-        let resized_segment = self.current_segment(msg);
-
-        let new_pointer = match resized_segment.shm.allocate(new_layout) {
-            Ok(mut ptr) => {
-                resized_segment.register_offset();
-                ptr.offset
-                    .set_segment_id(SegmentId::new(state.current_idx.value() as u8));
-                ptr
-            }
+        // the chunk does not fit into its bucket, move it into a new chunk of the current
+        // segment (or of a newly created, larger segment)
+        let new_pointer = match self.allocate(new_layout) {
+            Ok(ptr) => ptr,
             Err(e) => {
                 fail!(from self, with e.into(),
-                    "{msg} since a resize and new allocation in a new segment failed. [{e:?}]");
+                    "{msg} since the allocation of a new chunk failed. [{e:?}]");
             }
         };
 
